@@ -629,10 +629,33 @@ PROPS["C15"] = dict(family="boards", level="model_checking", design_ref="4.4",
                     text="Derive is the specification of inheritance; board isolation follows from deriving every board from declarations only.", note="Trusted: TLC, Json module, the program writer in harness/cmd/vdrive/boards.go, the projection.")
 
 
+# ---------------------------------------------------------------------------------- imports (C14)
+def corrupt_imports(lines, pid):
+    for e in lines:
+        if e.get("ev") == "set" and e.get("err") == 0 and e["obs"]["objs"]:
+            e["obs"]["objs"].pop()
+            return "last object of the importing file's board dropped"
+    return None
+
+
+FAMILIES["imports"] = dict(vdrive="imports", trace_module="TraceD2Imports", trace_cfg="TraceD2Imports.cfg", corrupt=corrupt_imports, engine="TraceD2Imports", args={"alphabet": _os.path.join(_SPECS, "ir_alphabet.json"), "n": "1000"}, chunk=1500, heap="4g")
+PROPS["C14"] = dict(family="imports", level="model_checking", design_ref="4.4",
+                    technique="TLA+ expansion of imports (ExpandFile: importing is inlining, under a key with every path prefixed; the stack of files being imported marks a cycle) on top of D2IR's Apply; TLC expands and folds every generated file set and compares with what the real compiler made of it from an in-memory file system, plus the inlined twin compiled by the real compiler",
+                    base=dict(quick=[dict(module="D2IR", cfg="D2IR_quick.cfg", workers=8)], thorough=[dict(module="D2IR", cfg="D2IR_quick.cfg", workers=8)]),
+                    rule=("the space of file sets is FIXED (set #i from seed i, 8,000 sets; quick takes the 1,000 VERIF_SEED selects): 1-4 files (index.d2, f2.d2, sub/f3.d2, sub/deep/f4.d2 in shuffled roles) of 0-3 declarations from the ir alphabet and 0-2 imports each, "
+                          "written as  ...@f ,  key: @f  or  key: {...@f}  at random positions, with the path spelled bare, with ./ or ../ and with or without the .d2 extension; acyclic sets import later files only (nested chains up to length 4), "
+                          "20% of the sets may import any file including themselves (cycles of every length). Non-trivial: the set contains an import."),
+                    exhaustive=dict(quick=True, thorough=True),
+                    assumptions=["imports of a single key of a file (@f.key), relative links and icons, and globs in imported files are not generated", "explicit label fields, indexed deletions and globs are left out of the alphabet (see C15)",
+                                 "the order of objects and connections is not compared", "termination: 20 s per compile"],
+                    text="ExpandFile is the specification of importing; the cycle rule is the compiler's own stack discipline stated in TLA+.", note="Trusted: TLC, Json module, the file writer in harness/cmd/vdrive/imports.go, testing/fstest.MapFS.")
+
+
 # ------------------------------------------------------------------------------- manifest data
 HOOK_COMMITS = ["9d004ebd4", "879b5d739"]
 
 ENGINES = {
+    "TraceD2Imports": dict(path="specs/D2IR.tla, specs/TraceD2Imports.tla, specs/ir_alphabet.json", kind="TLA+ expansion of imports with the import stack (cycle rule) over the D2IR reference interpreter; TLC compares the expansion with the real compiler's result for generated file sets"),
     "TraceD2Boards": dict(path="specs/D2IR.tla, specs/TraceD2Boards.tla, specs/ir_alphabet.json", kind="TLA+ inheritance rule for layers/scenarios/steps over the D2IR reference interpreter; TLC derives and folds the declarations of every board and compares with the real compiler's boards"),
     "TraceD2Vars": dict(path="specs/D2Vars.tla, specs/TraceD2Vars.tla", kind="TLA+ model of scoped variable resolution and substitution (TLC: all 3-scope programs) + TLC comparison of the model with the real compiler on generated programs and their textually substituted twins"),
     "TraceD2Quote": dict(path="specs/TraceD2Quote.tla", kind="TLA+ statements of the quoting round trip (identity on code-point sequences) and of IDs as keys of a board, evaluated by TLC on the real writer/parser/compiler results"),
